@@ -6,6 +6,10 @@ set -euo pipefail
 REPO="$1"; OUT="$2"; TGT="${3:-/verif/.cache/target}"
 HERE="$(cd "$(dirname "$0")/.." && pwd)"
 DRV="$HERE/engine/facts/target/release/pvx-facts"
+if [ ! -x "$DRV" ] || [ "$HERE/engine/facts/src/main.rs" -nt "$DRV" ]; then
+  # the driver is an input of the analysis: (re)build it when its source is newer than the binary
+  ( cd "$HERE/engine/facts" && flock "$HERE/engine/facts/.build.lock" env CARGO_NET_OFFLINE=true cargo +nightly build --offline --release >/dev/null 2>&1 ) || true
+fi
 [ -x "$DRV" ] || { echo "extract: driver not built ($DRV); run setup" >&2; exit 2; }
 SYSROOT="$(rustc +nightly --print sysroot)"
 mkdir -p "$OUT" "$TGT"
